@@ -44,41 +44,39 @@ theorem stepField_le : ∀ (sch : Schema) (vals : List PVal) {num wt : Nat} {b r
         · cases h
         · cases h
 
-theorem skipGroup_le : ∀ (fuel : Nat) (stack : List Nat) (b : Bytes) {rest : Bytes},
-    skipGroup fuel stack b = some rest → rest.length ≤ b.length := by
+theorem skipGroup_le : ∀ (fuel depth num : Nat) (b : Bytes) {rest : Bytes},
+    skipGroup fuel depth num b = some rest → rest.length ≤ b.length := by
   intro fuel
   induction fuel with
-  | zero => intro stack b rest h; simp [skipGroup] at h
+  | zero => intro depth num b rest h; simp [skipGroup] at h
   | succ fuel ih =>
-    intro stack b rest h
+    intro depth num b rest h
     simp only [skipGroup] at h
     split at h
     · cases h
-    · rename_i num wt r hc
+    · rename_i num2 wt2 r hc
       have hlt := consumeTag_lt hc
       split at h
       · split at h
+        · injection h with h; subst h; omega
         · cases h
-        · split at h
-          · cases h
-          · split at h
-            · injection h with h; subst h; omega
-            · have := ih _ _ h; omega
       · split at h
-        · split at h
-          · cases h
-          · have := ih _ _ h; omega
-        · split at h
-          · cases h
-          · rename_i r' hs
-            have h1 := skipScalar_le hs
-            have := ih _ _ h; omega
+        · cases h
+        · rename_i r' hn
+          have hr' : r'.length ≤ r.length := by
+            split at hn
+            · split at hn
+              · cases hn
+              · exact ih _ _ _ hn
+            · exact skipScalar_le hn
+          have := ih _ _ _ h
+          omega
 
 theorem skipValue_le {num wt : Nat} {b rest : Bytes} (h : skipValue num wt b = some rest) :
     rest.length ≤ b.length := by
   unfold skipValue at h
   split at h
-  · exact skipGroup_le _ _ _ h
+  · exact skipGroup_le _ _ _ _ h
   · split at h
     · cases h
     · exact skipScalar_le h
@@ -157,13 +155,13 @@ theorem dec_fail (sch : Schema) {b : Bytes} {m : Msg} (hne : b ≠ [])
   | cons x xs => simp only [List.length_cons, decodeLoop, hs]
 
 /-- the group skipper: any fuel above the length of the input gives the same result -/
-theorem skipGroup_fuel : ∀ (f1 f2 : Nat) (stack : List Nat) (b : Bytes),
-    b.length < f1 → b.length < f2 → skipGroup f1 stack b = skipGroup f2 stack b := by
+theorem skipGroup_fuel : ∀ (f1 f2 depth num : Nat) (b : Bytes),
+    b.length < f1 → b.length < f2 → skipGroup f1 depth num b = skipGroup f2 depth num b := by
   intro f1
   induction f1 with
-  | zero => intro f2 stack b h1; omega
+  | zero => intro f2 depth num b h1; omega
   | succ f1 ih =>
-    intro f2 stack b h1 h2
+    intro f2 depth num b h1 h2
     cases f2 with
     | zero => omega
     | succ f2 =>
@@ -171,25 +169,31 @@ theorem skipGroup_fuel : ∀ (f1 f2 : Nat) (stack : List Nat) (b : Bytes),
       cases hc : consumeTag b with
       | none => rfl
       | some p =>
-        obtain ⟨num, wt, rest⟩ := p
+        obtain ⟨num2, wt2, rest⟩ := p
         have hlt := consumeTag_lt hc
         simp only
         split
-        · split
-          · rfl
-          · split
-            · rfl
+        · rfl
+        · have hin : (if wt2 = 3 then (if depth = 0 then none else skipGroup f1 (depth - 1) num2 rest)
+                else skipScalar wt2 rest)
+              = (if wt2 = 3 then (if depth = 0 then none else skipGroup f2 (depth - 1) num2 rest)
+                else skipScalar wt2 rest) := by
+            split
             · split
               · rfl
-              · exact ih f2 _ rest (by omega) (by omega)
-        · split
-          · split
+              · exact ih f2 _ _ rest (by omega) (by omega)
             · rfl
-            · exact ih f2 _ rest (by omega) (by omega)
-          · cases hs : skipScalar wt rest with
-            | none => rfl
-            | some rest' =>
-              have := skipScalar_le hs
-              exact ih f2 _ rest' (by omega) (by omega)
+          rw [hin]
+          cases hn : (if wt2 = 3 then (if depth = 0 then none else skipGroup f2 (depth - 1) num2 rest)
+                else skipScalar wt2 rest) with
+          | none => rfl
+          | some rest' =>
+            have hr' : rest'.length ≤ rest.length := by
+              split at hn
+              · split at hn
+                · cases hn
+                · exact skipGroup_le _ _ _ _ hn
+              · exact skipScalar_le hn
+            exact ih f2 _ _ rest' (by omega) (by omega)
 
 end NodisVerif.Proofs.ProtoWire
